@@ -316,6 +316,11 @@ MALFORMED = [
 ]
 
 
+# well-formed up to the extension: read_namespace does not consider such files at all (a namespace directory may hold anything), but
+# handed to read_files as a target they are file names that do not have the shape of a definition
+NOT_DEFINITIONS = ["Foo.1.0.txt", "Foo.1.0.DSDL", "Foo.1.0.dsdl~", "Foo.1.0.", "Foo.1.0.dsdl.bak", "Foo.1.0.uavcan2", "7000.Foo.1.0.md", "Foo.1.0.Dsdl"]
+
+
 def check_malformed(case: typing.Any, ctx: Ctx) -> Info:
     import pydsdl
 
@@ -327,13 +332,19 @@ def check_malformed(case: typing.Any, ctx: Ctx) -> Info:
             sub = os.path.join(sub, "bad.dir")
         os.makedirs(sub, exist_ok=True)
         name = MALFORMED[case["name"] % len(MALFORMED)] if not case["dotted_dir"] else "Fine.1.0.dsdl"
+        other_extension = case.get("not_definition") is not None and not case["dotted_dir"]
+        if other_extension:
+            name = NOT_DEFINITIONS[case["not_definition"] % len(NOT_DEFINITIONS)]
         with open(os.path.join(sub, name), "w") as f:
             f.write("@sealed\n")
         with open(os.path.join(root, "Good.1.0.dsdl"), "w") as f:
             f.write("@sealed\n")
         where = "ns/%s" % os.path.relpath(os.path.join(sub, name), root)
         res, ex = guarded(pydsdl.read_namespace, root, [], None, True, allowed=(pydsdl.InvalidDefinitionError,), what="read_namespace:malformed")
-        require(ex is not None, "malformed-file-name-accepted", "InvalidDefinitionError", [str(t) for t in (res or [])], where)
+        if other_extension:
+            require(ex is None and [str(t) for t in res] == ["ns.Good.1.0"], "non-definition-file-not-ignored", ["ns.Good.1.0"], repr(ex) if ex else [str(t) for t in res], where)
+        else:
+            require(ex is not None, "malformed-file-name-accepted", "InvalidDefinitionError", [str(t) for t in (res or [])], where)
         (res2), ex2 = guarded(pydsdl.read_files, [os.path.join(sub, name)], [root], None, None, True, allowed=(pydsdl.InvalidDefinitionError,), what="read_files:malformed")
         require(ex2 is not None, "malformed-file-name-accepted:read_files", "InvalidDefinitionError", "accepted", where)
     finally:
@@ -356,7 +367,8 @@ def parts(ctx: Ctx) -> typing.List[Part]:
             "container": st.integers(0, 35),
         }
     ).filter(lambda c: c["port"] is None or (c["port"] <= 511 if c["service"] else True))
-    malformed = st.fixed_dictionaries({"name": st.integers(0, len(MALFORMED) - 1), "ns": st.lists(st.sampled_from(SUBS), max_size=2, unique=True), "dotted_dir": st.sampled_from([False, False, False, True])})
+    malformed = st.fixed_dictionaries({"name": st.integers(0, len(MALFORMED) - 1), "ns": st.lists(st.sampled_from(SUBS), max_size=2, unique=True), "dotted_dir": st.sampled_from([False, False, False, True]),
+                                       "not_definition": st.one_of(st.none(), st.none(), st.none(), st.integers(0, len(NOT_DEFINITIONS) - 1))})
     one_file = st.fixed_dictionaries(
         {
             "tree": st.integers(0, 1),
